@@ -8,7 +8,7 @@ SPEC = {
     "ampl": ["BS_BEFORE_POP", "WAKENS_AFTER_PUSH", "YIELD_CB_AFTER_PUT", "FIN_BEFORE_POP", "CREATE_AFTER_PARENT_PUSH"],
     "required": ["BAR_LAST", "WAKENS_WAITED", "SCHED_STEAL_OK", "WAKENS_AFTER_POP"],
     "nontrivial_ids": ["WAKENS_AFTER_POP"],
-    "n_quick": 90, "n_thorough": 2500,
+    "n_quick": 90, "n_thorough": 1200,
     "variants": {"h0": 55, "h2": 35, "asan": 10},
     "rule": ("each evaluation is one process running `progs` barrier programs (N in {1,2,3,4,7,16,64,200,1200,3000}, up to "
              "thousands of consecutive rounds by the same participants, stragglers mixed with racers, threads >> "
